@@ -34,14 +34,18 @@ func formatRawCarObjectKey(c cid.Cid) string {
 	return "rco-" + c.String()
 }
 
-func formatSlotToCidKey(slot uint64) string {
-	return "s2c-" + strconv.FormatUint(slot, 10)
+// The look-ups of an epoch are cached per loaded Epoch object (owner): when an epoch is replaced by
+// another version of itself, a request that still holds the old object may store a look-up after the
+// reload has emptied the cache; under an owner-less key the new object would then be served the old
+// version's CID or offset.
+func formatSlotToCidKey(owner uint64, slot uint64) string {
+	return "s2c-" + strconv.FormatUint(owner, 10) + "-" + strconv.FormatUint(slot, 10)
 }
 
 // An object's offset belongs to one epoch's CAR file: the same CID can be stored in several epochs
 // (e.g. identical data frames), each time at another offset, and all epochs share one cache.
-func formatOffsetAndSizeKey(epoch uint64, c cid.Cid) string {
-	return "o&s-" + strconv.FormatUint(epoch, 10) + "-" + c.String()
+func formatOffsetAndSizeKey(owner uint64, c cid.Cid) string {
+	return "o&s-" + strconv.FormatUint(owner, 10) + "-" + c.String()
 }
 
 // PutRawCarObject stores the raw CAR object data.
@@ -62,13 +66,13 @@ func (r *Cache) GetRawCarObject(c cid.Cid) (v []byte, err error, has bool) {
 }
 
 // PutSlotToCid stores the CID for the given slot.
-func (r *Cache) PutSlotToCid(slot uint64, c cid.Cid) error {
-	return r.cache.Set(formatSlotToCidKey(slot), c.Bytes())
+func (r *Cache) PutSlotToCid(owner uint64, slot uint64, c cid.Cid) error {
+	return r.cache.Set(formatSlotToCidKey(owner, slot), c.Bytes())
 }
 
 // GetSlotToCid returns the CID for the given slot if it exists in the cache.
-func (r *Cache) GetSlotToCid(slot uint64) (cid.Cid, error, bool) {
-	if v, err := r.cache.Get(formatSlotToCidKey(slot)); err == nil {
+func (r *Cache) GetSlotToCid(owner uint64, slot uint64) (cid.Cid, error, bool) {
+	if v, err := r.cache.Get(formatSlotToCidKey(owner, slot)); err == nil {
 		_, parsed, err := cid.CidFromBytes(v)
 		if err != nil {
 			return cid.Undef, err, false
@@ -82,18 +86,18 @@ func (r *Cache) GetSlotToCid(slot uint64) (cid.Cid, error, bool) {
 	}
 }
 
-func (r *Cache) PutCidToOffsetAndSize(epoch uint64, c cid.Cid, oas *indexes.OffsetAndSize) error {
+func (r *Cache) PutCidToOffsetAndSize(owner uint64, c cid.Cid, oas *indexes.OffsetAndSize) error {
 	if oas == nil {
 		return errors.New("offset and size is nil")
 	}
 	if !oas.IsValid() {
 		return errors.New("offset and size is invalid")
 	}
-	return r.cache.Set(formatOffsetAndSizeKey(epoch, c), oas.Bytes())
+	return r.cache.Set(formatOffsetAndSizeKey(owner, c), oas.Bytes())
 }
 
-func (r *Cache) GetCidToOffsetAndSize(epoch uint64, c cid.Cid) (*indexes.OffsetAndSize, error, bool) {
-	if v, err := r.cache.Get(formatOffsetAndSizeKey(epoch, c)); err == nil {
+func (r *Cache) GetCidToOffsetAndSize(owner uint64, c cid.Cid) (*indexes.OffsetAndSize, error, bool) {
+	if v, err := r.cache.Get(formatOffsetAndSizeKey(owner, c)); err == nil {
 		var oas indexes.OffsetAndSize
 		if err := oas.FromBytes(v); err != nil {
 			return nil, err, false
